@@ -37,7 +37,7 @@ func init() {
 			}
 			return ps
 		},
-		MinObserved: []string{"frames_checked", "cross_writer_switches", "barrier_openings", "bursts_fully_answered_without_further_traffic", "stops_during_concurrent_writes"},
+		MinObserved: []string{"frames_checked", "cross_writer_switches", "barrier_openings", "bursts_fully_answered_without_further_traffic", "stops_during_concurrent_writes", "write_timeout_runs", "victim_connections_reset_mid_response"},
 	})
 }
 
@@ -102,6 +102,18 @@ func c05One(c *Ctx, pki *PKI, cfg c05Cfg, r *Rand) {
 		if err != nil {
 			return
 		}
+		if m.BaseDN == "victim" {
+			// a client that resets right after its request: these small writes fail (a fault elsewhere on the server
+			// must not disturb the frames of other writers)
+			for j := 0; j < 4; j++ {
+				time.Sleep(15 * time.Millisecond)
+				e := req.NewSearchResponseEntry("cn=victim")
+				e.AddAttribute("p", []string{"small"})
+				w.Write(e)
+			}
+			w.Write(req.NewSearchDoneResponse(gldap.WithResponseCode(0)))
+			return
+		}
 		if entered.Add(1) == int64(cfg.N) {
 			once.Do(func() { close(open) })
 		}
@@ -149,6 +161,18 @@ func c05One(c *Ctx, pki *PKI, cfg c05Cfg, r *Rand) {
 		return
 	}
 	defer srv.StopWithin(patience)
+	// victims first: a few connections whose handlers' writes fail (plain transport to the same server when possible)
+	if cfg.Transport != "tls" {
+		for v := 0; v < 4; v++ {
+			if vc, err := dialRaw(srv.Addr, nil); err == nil {
+				vc.Send(sber.Message(1, sber.Search{Base: []byte("victim"), Scope: 2, Filter: sber.PresentFilter("cn"), Attrs: [][]byte{}}.Node(), nil).Encode())
+				time.Sleep(2 * time.Millisecond)
+				vc.Reset()
+				c.Count("victim_connections_reset_mid_response", 1)
+			}
+		}
+		time.Sleep(40 * time.Millisecond) // the victims' first writes have failed by now; the others overlap the run
+	}
 	var conn net.Conn
 	switch cfg.Transport {
 	case "plain", "starttls":
@@ -550,9 +574,140 @@ func c05StopDuringWrites(c *Ctx, r *Rand, round int) {
 	c.Count("notices_of_disconnection_seen", int64(notices))
 }
 
+// c05WriteTimeout: a server with WithWriteTimeout, frames larger than the socket buffers and a client that pauses
+// longer than the timeout, then reads on. Writes may fail - but every Write that returned nil must have put one whole
+// frame on the stream, and nothing that follows a torn frame may be claimed as written.
+func c05WriteTimeout(c *Ctx, r *Rand, round int) {
+	type wkey struct {
+		h int64
+		j int
+	}
+	var mu sync.Mutex
+	ok := map[wkey]bool{}
+	var failed, handlersDone int64
+	const nHandlers = 4
+	srv, err := startSrv(SrvCfg{WriteTimeout: 400 * time.Millisecond}, func(m *gldap.Mux) {
+		m.Search(func(w *gldap.ResponseWriter, req *gldap.Request) {
+			sm, err := req.GetSearchMessage()
+			if err != nil {
+				return
+			}
+			h := sm.GetID()
+			for j := 0; j < 8; j++ {
+				n := 150000
+				if j%2 == 1 {
+					n = 300
+				}
+				e := req.NewSearchResponseEntry(fmt.Sprintf("h=%d,j=%d", h, j))
+				e.AddAttribute("p", []string{string(c05Payload(h, j, n))})
+				err := w.Write(e)
+				mu.Lock()
+				if err == nil {
+					ok[wkey{h, j}] = true
+				} else {
+					failed++
+				}
+				mu.Unlock()
+				time.Sleep(60 * time.Millisecond)
+			}
+			mu.Lock()
+			handlersDone++
+			mu.Unlock()
+		})
+	})
+	if err != nil {
+		c.Inconclusive("server start: " + err.Error())
+		return
+	}
+	defer srv.StopWithin(patience)
+	cn, err := net.Dial("tcp", srv.Addr)
+	if err != nil {
+		c.Inconclusive("dial: " + err.Error())
+		return
+	}
+	defer cn.Close()
+	var all []byte
+	for i := 0; i < nHandlers; i++ {
+		all = append(all, sber.Message(int64(1+i), sber.Search{Base: []byte("dc=x"), Scope: 2, Filter: sber.PresentFilter("cn"), Attrs: [][]byte{}}.Node(), nil).Encode()...)
+	}
+	cn.Write(all)
+	br := bufio.NewReaderSize(cn, 64<<10)
+	seen := map[wkey]int{}
+	var parseErr error
+	readSome := func(max int, d time.Duration) {
+		for i := 0; i < max && parseErr == nil; i++ {
+			cn.SetReadDeadline(time.Now().Add(d))
+			f, err := sber.ReadFrame(br)
+			if err != nil {
+				if !isTimeout(err) && err != io.EOF {
+					parseErr = err
+				} else if len(f) > 0 {
+					parseErr = fmt.Errorf("stream ends inside a frame (%d bytes of it)", len(f))
+				} else {
+					parseErr = io.EOF
+				}
+				return
+			}
+			m, perr := sber.ParseMessage(f)
+			if perr != nil {
+				parseErr = perr
+				return
+			}
+			c.Count("frames_checked", 1)
+			if e, eerr := sber.AsEntry(m.Op); eerr == nil {
+				var eh int64
+				var ej int
+				if _, serr := fmt.Sscanf(string(e.DN), "h=%d,j=%d", &eh, &ej); serr == nil && eh == m.ID {
+					n := 150000
+					if ej%2 == 1 {
+						n = 300
+					}
+					if len(e.Attrs) == 1 && string(e.Attrs[0].Vals[0]) == string(c05Payload(eh, ej, n)) {
+						seen[wkey{eh, ej}]++
+						continue
+					}
+				}
+				parseErr = fmt.Errorf("frame content does not match its id (dn %q under id %d)", e.DN, m.ID)
+			}
+		}
+	}
+	readSome(2+r.Intn(3), patience)
+	time.Sleep(900 * time.Millisecond) // back-pressure for longer than the write timeout
+	readSome(1<<30, 1500*time.Millisecond)
+	// let the handlers finish their remaining (failing or succeeding) writes, then judge
+	for dl := time.Now().Add(patience); time.Now().Before(dl); time.Sleep(10 * time.Millisecond) {
+		mu.Lock()
+		d := handlersDone
+		mu.Unlock()
+		if d == nHandlers {
+			break
+		}
+	}
+	readSome(1<<30, 500*time.Millisecond)
+	mu.Lock()
+	defer mu.Unlock()
+	det := map[string]any{"round": round, "failed_writes": failed, "successful_writes": len(ok), "stream_end": fmt.Sprint(parseErr)}
+	for k := range ok {
+		if seen[k] == 0 {
+			c.Violate("frame lost although its Write returned nil", fmt.Sprintf("with a write timeout and a client that paused: h=%d j=%d was reported written but never arrived as a whole frame (stream ended with: %v)", k.h, k.j, parseErr), det)
+			break
+		}
+	}
+	for k, n := range seen {
+		if n > 1 {
+			c.Violate("frame duplicated", fmt.Sprintf("h=%d j=%d seen %d times (write-timeout run)", k.h, k.j, n), det)
+		}
+	}
+	c.Count("write_timeout_runs", 1)
+	c.Count("failed_writes", failed)
+}
+
 func c05Run(c *Ctx) {
 	pki := newPKI()
 	r := c.Rng
+	for i := 0; i < c.N(2, 30); i++ {
+		c05WriteTimeout(c, r.Sub(fmt.Sprintf("wt%d", i)), i)
+	}
 	for i := 0; i < c.N(6, 80); i++ {
 		c05StopDuringWrites(c, r.Sub(fmt.Sprintf("stop%d", i)), i)
 	}
